@@ -12,6 +12,8 @@
    panic at the same sites. *)
 From Coq Require Import List ZArith NArith Bool Lia.
 Require Import Mixin.Base.Res Mixin.Gen.Consts Mixin.Model.Fixed Mixin.Model.Validate Mixin.Proofs.Validate.
+Require Mixin.Model.TxCodec.
+Require Import Mixin.Model.CodecValidateLink Mixin.Proofs.CodecValidateLink.
 Import ListNotations.
 Open Scope Z_scope.
 
@@ -157,3 +159,31 @@ Example C05_ex_f1_f2 :
   decodable ex_f2 = true /\ validate ex_view ex_facts 77%N 1 false ex_f2 = Err /\
   get_extra_limit ex_f2 = Ok Consts.ValExtraSizeStorageCapacity.
 Proof. repeat split; vm_compute; reflexivity. Qed.
+
+(* ---- C05 over byte strings ------------------------------------------------------------------
+   The byte-level decoder is modelled and proved canonical in Model/TxCodec.v (property C06).
+   [proj] (Model/CodecValidateLink.v) maps a decoded transaction to the record validated here;
+   [trim] stands for the strings.TrimSpace tests and [sigv] for the signature verification
+   results, both arbitrary.  Every field of [decodable] follows from [unmarshal b = Ok t], so
+   the panic-freedom theorem quantifies over exactly "every byte string that decodes". *)
+Theorem C05_decoder_yields_decodable : forall trim sigv b t,
+  TxCodec.unmarshal b = Ok t -> decodable (proj trim sigv t) = true.
+Proof. exact unmarshal_decodable. Qed.
+Print Assumptions C05_decoder_yields_decodable.
+
+Theorem C05_no_panic_bytes : forall trim sigv b t v f h ts fork,
+  TxCodec.unmarshal b = Ok t -> ledger_inv v ts ->
+  validate v f h ts fork (proj trim sigv t) <> Panic.
+Proof. exact no_panic_bytes. Qed.
+Print Assumptions C05_no_panic_bytes.
+
+(* non-vacuity: the 375 bytes the real encoder produced for a signed mint transaction (harness
+   corpus case "mint") decode in the codec model, project to a mint-typed decodable transaction,
+   and validate over the consistent example view *)
+Definition ex_bytes : list N := [119;119;0;5;169;156;46;14;43;29;164;214;72;117;94;241;155;217;81;57;172;187;230;86;76;251;6;222;199;205;52;147;28;167;44;220;0;1;0;0;0;0;0;0;0;0;0;0;0;0;0;0;0;0;0;0;0;0;0;0;0;0;0;0;0;0;0;0;0;0;0;0;0;0;0;0;119;119;0;9;85;78;73;86;69;82;83;65;76;0;0;0;0;0;0;5;243;0;4;226;127;102;0;0;2;0;0;0;4;126;137;208;173;0;1;32;20;1;10;158;165;229;72;220;217;27;207;222;121;60;161;65;28;69;233;63;192;235;175;19;55;92;14;136;3;167;60;86;39;188;18;255;103;49;115;23;176;37;150;24;190;232;100;213;149;98;30;165;5;155;96;10;217;33;235;211;75;201;146;0;3;255;254;1;0;0;0;0;0;4;99;245;149;83;0;2;136;227;217;106;56;22;25;103;55;36;139;35;31;151;168;160;207;5;166;100;178;200;174;242;174;25;86;75;58;243;45;82;144;30;22;73;90;199;166;14;180;2;209;247;119;159;17;50;236;181;10;164;135;100;117;82;8;157;175;14;61;130;53;255;10;189;35;131;71;237;60;13;173;168;171;154;15;51;171;118;124;194;69;181;172;22;11;32;98;91;107;136;198;104;176;151;0;3;255;254;2;0;0;0;0;0;0;0;0;0;1;0;1;0;0;135;85;214;186;51;230;99;164;132;16;123;170;1;194;157;195;80;226;155;123;33;41;49;88;43;70;193;5;228;80;146;237;214;86;186;109;102;67;204;35;133;92;182;178;185;168;58;112;205;162;160;133;240;204;130;76;23;73;170;138;85;111;212;6]%N.
+Example C05_ex_bytes :
+  exists t, TxCodec.unmarshal ex_bytes = Ok t /\
+            tx_type (proj (fun _ => true) (fun _ _ _ => true) t) = ty_mint /\
+            decodable (proj (fun _ => true) (fun _ _ _ => true) t) = true /\
+            validate ex_view ex_facts 77%N 1 false (proj (fun _ => true) (fun _ _ _ => true) t) = Ok tt.
+Proof. eexists. split; [vm_compute; reflexivity|]. repeat split; vm_compute; reflexivity. Qed.
